@@ -35,6 +35,8 @@ type c13Case struct {
 	// Foreign: Run is handed a context that is not one of the context package's own types (a host's wrapper with its
 	// own methods); everything the property says holds for it as well
 	Foreign bool `json:"foreign,omitempty"`
+	// BP: the CPU has a break point the program never reaches (PC+0x80 for the loops that stay near PC)
+	BP bool `json:"bp,omitempty"`
 }
 
 // foreignCtx delegates to a context of the standard library but is a type of its own.
@@ -124,6 +126,9 @@ func (r *c13Rig) initCPU(c *c13Case, cpu *z80.CPU, m *progMachine) {
 	cpu.HL.SetU16(0x4000)
 	cpu.DE.SetU16(0x5000)
 	cpu.IR.Lo = uint8(c.R)
+	if c.BP {
+		cpu.BreakPoints = map[uint16]struct{}{c.PC + 0x80: {}}
+	}
 	switch c.Pending {
 	case "int":
 		cpu.IFF1, cpu.IFF2, cpu.IM = false, false, 1
@@ -260,7 +265,11 @@ func (r *c13Rig) runCtx(c *c13Case, parent context.Context) c13Outcome {
 		return o
 	}
 	if err != nil {
-		if at := atomic.LoadInt64(&cancelledAt); at != 0 && returned-at > int64(10*time.Second) {
+		bound := int64(10 * time.Second)
+		if c.Instant == "timer" && c.N >= 500000 {
+			bound = int64(300 * time.Millisecond) // a long-run case (TestC13LongRun) being replayed
+		}
+		if at := atomic.LoadInt64(&cancelledAt); at != 0 && returned-at > bound {
 			o.msg = fmt.Sprintf("Run returned %v after the cancellation", time.Duration(returned-at))
 			return o
 		}
@@ -431,6 +440,12 @@ func TestC13(t *testing.T) {
 					c.Instant = rapid.SampledFrom([]string{"pre", "pre", "timer", "timeout", "never", "hook"}).Draw(t, "instantShort")
 				}
 			}
+			switch c.Loop {
+			case "jr", "jp", "djnz", "jpix", "ldra", "ldir", "otir", "ldirix":
+				// (the others run through all of memory, or away through a mode-0 RST)
+				// (nor with a mode-0 request: the instruction the device supplies, or where the tree resumes after it, leads out of the loop)
+				c.BP = (c.Pending == "" || c.Pending == "int") && rapid.IntRange(0, 2).Draw(t, "bp") == 0
+			}
 			c.Cause = c.Instant != "never" && rapid.IntRange(0, 3).Draw(t, "cause") == 0
 			c.Foreign = rapid.IntRange(0, 3).Draw(t, "foreign") == 0
 			switch c.Instant {
@@ -457,6 +472,9 @@ func TestC13(t *testing.T) {
 			}
 			if c.Foreign {
 				col.Label("context-of-a-foreign-type")
+			}
+			if c.BP {
+				col.Label("break-point-never-reached")
 			}
 			if c.Pending != "" {
 				col.Label("pending:" + c.Pending)
@@ -517,4 +535,57 @@ func TestC13(t *testing.T) {
 		}
 		col.Label("batches")
 	})
+}
+
+// TestC13LongRun: the delay between cancellation and return does not grow with the time the program has been running.
+// Two runs of a tight loop are cancelled after 1.0 s and after 1.414 s (no schedule of ever rarer polls serves both
+// within the bound); Run must be back within 300 ms - five orders of magnitude above what the tree needs. A late return
+// is measured again twice before it is reported (a real defect is late every time, a stalled machine is not).
+func TestC13LongRun(t *testing.T) {
+	col := stats.New("C13")
+	col.Sub = "longrun"
+	defer finish(t, col)
+	col.Rule = "longrun: JR $ and LDIR loops cancelled from another goroutine after 1.0 s and after 1.414 s of running (plain and with a break point that is never reached): Run returns the context's error " +
+		"within 300 ms of the cancellation (re-measured twice before a report); non-trivial = every run"
+	rig := &c13Rig{}
+	const bound = 300 * time.Millisecond
+	for i, after := range []time.Duration{1000 * time.Millisecond, 1414 * time.Millisecond} {
+		c := c13Case{Loop: []string{"jr", "ldir"}[(env.Shard+i)%2], PC: 0x0100, Instant: "timer", N: int(after / time.Microsecond), BP: (env.Shard/2+i)%2 == 0}
+		var late time.Duration
+		for attempt := 0; attempt < 3; attempt++ {
+			rig.load(&c)
+			rig.initCPU(&c, &rig.cpu, &rig.m)
+			ctx, cancel := context.WithCancel(context.Background())
+			var cancelledAt time.Time
+			timer := time.AfterFunc(after, func() { cancelledAt = time.Now(); cancel() })
+			done := make(chan error, 1)
+			go func() { done <- rig.cpu.Run(ctx) }()
+			var err error
+			select {
+			case err = <-done:
+			case <-time.After(after + 20*time.Second):
+				timer.Stop()
+				cancel()
+				violation(t, "C13", "cancel", c, "bounded delay", fmt.Sprintf("Run did not return within 20 s of a cancellation made after %v of running", after))
+			}
+			returned := time.Now()
+			timer.Stop()
+			cancel()
+			col.Eval(1)
+			if err != context.Canceled {
+				violation(t, "C13", "cancel", c, "context error", fmt.Sprintf("Run returned %v after a cancellation made after %v of running", err, after))
+			}
+			late = returned.Sub(cancelledAt)
+			if late <= bound {
+				break
+			}
+			col.Label("longrun:late-return-re-measured")
+		}
+		if late > bound {
+			violation(t, "C13", "cancel", c, "delay independent of how long the program has been running",
+				fmt.Sprintf("cancelled after %v of running, Run returned %v later (three measurements, bound %v)", after, late, bound))
+		}
+		col.DistinctN(1)
+		col.Label("longrun:cancelled-after-" + after.String())
+	}
 }
